@@ -85,6 +85,58 @@ pub fn dispatch(op: &str, req: &Value) -> Result<Value, String> {
             let (min_items, batches) = r.map_err(|e| e.to_string())?;
             Ok(json!({"min_items": min_items, "batches": batches}))
         }
+        "preproc_repeat" => {
+            // runs a randomised preprocessing closure `n` times on the same (item, info) and returns the distinct results
+            let cfg = match req["kind"].as_str().ok_or("kind")? {
+                "switch" => {
+                    let k = req["fns"].as_u64().unwrap_or(2) as usize;
+                    let fns: Vec<_> = (0..k).map(|i| PreprocessingFnConfig::Prefix(Part::Input, format!("{i}:"))).collect();
+                    let probs: Vec<f64> = req["probs"].as_array().ok_or("probs")?.iter().map(|p| p.as_f64().unwrap()).collect();
+                    PreprocessingFnConfig::Switch(fns, probs)
+                }
+                "CharSubstring" => PreprocessingFnConfig::CharSubstring(ous(&req["max"]).ok_or("max")?, false),
+                "ByteSubstring" => PreprocessingFnConfig::ByteSubstring(ous(&req["max"]).ok_or("max")?, false),
+                k => return Err(format!("unknown preprocessing {k}")),
+            };
+            let f = text_utils::data::preprocessing::preprocessing(cfg);
+            let seed = req["seed"].as_u64().or_else(|| req["seed"].as_str().and_then(|s| s.parse::<u64>().ok())).ok_or("seed")?;
+            let mut outs: Vec<String> = vec![];
+            for _ in 0..req["n"].as_u64().unwrap_or(16) {
+                let item = text_utils::data::TrainData::new(
+                    req["input"].as_str().ok_or("input")?.to_string(),
+                    Some(req["target"].as_str().ok_or("target")?.to_string()),
+                );
+                let info = text_utils::data::TextDataInfo { seed, file_idx: 1, ..Default::default() };
+                let o = match f(item, info) {
+                    Ok((d, i)) => format!("{:?} seed={} file={}", d, i.seed, i.file_idx),
+                    Err(e) => format!("Err {e}"),
+                };
+                if !outs.contains(&o) {
+                    outs.push(o);
+                }
+            }
+            Ok(json!(outs))
+        }
+        "corrupt_spelling_run" => {
+            // artificial spelling corruption (delete / swap only: no character table) of `text` for every seed in `seeds`
+            let cfg = PreprocessingFnConfig::SpellingCorruption(
+                Part::Input,
+                req["prob"].as_f64().unwrap_or(1.0),
+                req["full_delete"].as_bool().unwrap_or(false),
+                text_utils::data::preprocessing::SpellingCorruptionMode::Artificial(req["char_p"].as_f64().unwrap_or(1.0), 1.0, None),
+            );
+            let f = text_utils::data::preprocessing::preprocessing(cfg);
+            let text = req["text"].as_str().ok_or("text")?;
+            let mut outs: Vec<String> = vec![];
+            for sd in req["seeds"].as_array().ok_or("seeds")? {
+                let seed = sd.as_u64().ok_or("seed")?;
+                let item = text_utils::data::TrainData::new(text.to_string(), Some("t".to_string()));
+                let info = text_utils::data::TextDataInfo { seed, ..Default::default() };
+                let (d, _) = f(item, info).map_err(|e| e.to_string())?;
+                outs.push(crate::ops9::parts_of(&d).0);
+            }
+            Ok(json!(outs))
+        }
         _ => Err(format!("unknown op {op}")),
     }
 }
